@@ -388,6 +388,54 @@ Fixpoint apply_fixups (be : bool) (units : list uoffs) (sec_base : N) (buf : lis
       end
   end.
 
+(* ---- the domain: values of the Rust types (u64, i64, u16 register, u8 index/size, u32 wasm index, usize) ---- *)
+Definition is_u64 (n : N) : bool := n <? two64.
+Definition wf_ref (r : dref) : bool :=
+  match r with RSym s => is_u64 s | REntry u en => is_u64 u && is_u64 en end.
+
+Fixpoint wf_op (o : wop) : bool :=
+  match o with
+  | WoRaw _ => true
+  | WoSimple opc => opc <? 256
+  | WoAddress (AConst v) => is_u64 v
+  | WoAddress (ASym s a) => is_u64 s && in_i64 a
+  | WoUConst v => is_u64 v
+  | WoSConst v => in_i64 v
+  | WoConstType b _ => is_u64 b
+  | WoFrameOffset off => in_i64 off
+  | WoRegOffset r off => (r <? 65536) && in_i64 off
+  | WoRegType r b => (r <? 65536) && is_u64 b
+  | WoPick i => i <? 256
+  | WoDeref _ => true
+  | WoDerefSize _ s => s <? 256
+  | WoDerefType _ s b => (s <? 256) && is_u64 b
+  | WoPlusConst v => is_u64 v
+  | WoSkip t => is_u64 t
+  | WoBranch t => is_u64 t
+  | WoCall en => is_u64 en
+  | WoCallRef r => wf_ref r
+  | WoVarValue r => wf_ref r
+  | WoConvert b => match b with Some b => is_u64 b | None => true end
+  | WoReinterpret b => match b with Some b => is_u64 b | None => true end
+  | WoEntryValue ex => forallb wf_op ex
+  | WoRegister r => r <? 65536
+  | WoImplicitValue _ => true
+  | WoImplicitPointer r off => wf_ref r && in_i64 off
+  | WoPiece s => is_u64 s
+  | WoBitPiece s o => is_u64 s && is_u64 o
+  | WoParameterRef en => is_u64 en
+  | WoWasmLocal i => i <? two32
+  | WoWasmGlobal i => i <? two32
+  | WoWasmStack i => i <? two32
+  end.
+
+Definition wf_enc (e : enc) : bool := (e_version e <? 65536) && (e_asize e <? 256).
+Definition wf_uoffs (uo : option uoffs) : bool :=
+  match uo with
+  | Some u => is_u64 (uo_unit u) && forallb is_u64 (uo_entries u)
+  | None => true
+  end.
+
 (* ---- the builder interface (Expression::new + op_* + set_target) ---- *)
 
 Inductive bcall :=
